@@ -331,7 +331,7 @@ SpaceR == {s \in [rhs : {"R1", "R2", "R3", "R4", "R5", "RA", "RC"}, meth : {"MS"
 (* C15 family: grid='inf' constraints.                                     *)
 (***************************************************************************)
 InfCon(cid, lhs, rhs) == Con(cid, "le", lhs, rhs, "inf", TRUE, TRUE)
-InfIds == {"i1", "i2", "i3", "i4", "i5", "i6", "i7", "i8", "i9", "iA", "iB", "iC"}
+InfIds == {"i1", "i2", "i3", "i4", "i5", "i6", "i7", "i8", "i9", "iA", "iB", "iC", "iE", "iF"}
 InfOf(id, nx) ==
   CASE id = "i1" -> InfCon("i1", X(1), CI(3))
     [] id = "i2" -> InfCon("i2", Sq(X(1)), CI(9))
@@ -342,6 +342,9 @@ InfOf(id, nx) ==
     [] id = "i8" -> Con("i8", "ge", Minus(X(nx), Times(X(1), X(nx))), CI(-9), "inf", TRUE, TRUE)
     [] id = "i6" -> Con("i6", "ge", Minus(X(1), Times(C(1, 2), DX(nx))), CI(-6), "inf", TRUE, TRUE)
     [] id = "iC" -> Con("iC", "ge", Minus(Inert(Times(CI(2), U(1))), Plus(X(1), DX(nx))), CI(-9), "inf", TRUE, TRUE)   \* inf_inert and inf_der in one constraint
+    \* (RE) constraints on the scalar state declared after a vector-valued one; components of a vector state cannot be constrained this way
+    [] id = "iE" -> InfCon("iE", Plus(X(3), Sq(X(3))), CI(9))
+    [] id = "iF" -> Con("iF", "ge", Minus(Inert(U(1)), Plus(X(3), DX(3))), CI(-9), "inf", TRUE, TRUE)
     [] id = "iA" -> InfCon("iA", Minus(CI(2), X(1)), CI(5))                                    \* a constant as left operand of a subtraction
     [] id = "iB" -> Con("iB", "ge", Minus(C(1, 2), Times(X(1), X(nx))), CI(-9), "inf", TRUE, TRUE)
 \* i9: two products of a state with the derivative of the other one, in both orders, in one problem
@@ -354,9 +357,9 @@ MkDeclInf(s) ==
       d1 == [d0 EXCEPT !.method = Method(s.meth, N, s.M, "rk", IF s.grid = "free" THEN FreeG ELSE GridOf(s.grid, N)),
                        !.cons = InfSeq(s.ic, Len(d0.states)), !.obj = <<O1, O3>>]
   IN WithHorizon(d1, s.hz, IF s.seed % 2 = 0 THEN One ELSE Q(-1, 2), TBase(IF s.grid = "free" THEN "uni" ELSE s.grid, N))
-SpaceInf == {s \in [rhs : {"R1", "R2", "R3"}, meth : {"MS", "SS"}, N : 1..(IF Thorough THEN 3 ELSE 2), M : 1..2, grid : {"uni", "geo", "fun", "free"},
+SpaceInf == {s \in [rhs : {"R1", "R2", "R3", "RE"}, meth : {"MS", "SS"}, N : 1..(IF Thorough THEN 3 ELSE 2), M : 1..2, grid : {"uni", "geo", "fun", "free"},
                     hz : {"num", "fT"}, ic : InfIds, seed : {Seed}, cons : {<<>>}, obj : {<<>>}] :
-                (s.ic \in {"i4", "i9"} => s.rhs = "R3")}      \* with one state i4 degenerates to a true constant
+                (s.ic \in {"i4", "i9"} => s.rhs = "R3") /\ (s.rhs = "RE" <=> s.ic \in {"iE", "iF"})}      \* with one state i4 degenerates to a true constant
 
 IsX == Family \in {"C09", "C10", "C11", "C14"}
 MaxN == IF Thorough THEN 4 ELSE 3
